@@ -10,7 +10,7 @@ import (
 // Relay -> client for TCP allocations: an inbound peer connection is announced to the owner iff the
 // allocation holds a permission for the peer's IP; otherwise it is closed and nobody hears of it.
 //
-//verif:props=C02,C16,C04 unwind=20 bounds="TCP allocation with one permission (arbitrary IPv4 peer); one inbound connection from an arbitrary IPv4 address; a second allocation of another client; control-socket write may fail"
+//verif:props=C02,C16,C04,C15,C18 unwind=20 bounds="TCP allocation with one permission (arbitrary IPv4 peer); one inbound connection from an arbitrary IPv4 address; a second allocation of another client; control-socket write may fail"
 func VerifHarness_C02_tcp_inbound() {
 	env := VNewManager(false, false)
 	m := env.M
